@@ -4567,6 +4567,9 @@ class WBEMConnection:  # pylint: disable=too-many-instance-attributes
         stats = self.statistics.start_timer('InvokeMethod')
         try:
 
+            MethodName = self._iparam_string(
+                MethodName, 'MethodName', required=True)
+
             # Make the method call
             result = self._methodcall(MethodName, ObjectName, Params, **params)
 
